@@ -5,7 +5,8 @@
 (*   <<relation, key..., payload>>.                                        *)
 (* Lossless image: the rows are exactly the census of the compiled model   *)
 (* (one row per application, mixin, endpoint, statement with its position  *)
-(* path, type, table key, field, enum item, alias, event, annotation and   *)
+(* path, type, table key, field (and its declared length / precision),    *)
+(* enum item, alias, event, annotation and                                 *)
 (* tag); statement position paths are distinct within an endpoint; the     *)
 (* relations are the same every time.                                      *)
 (***************************************************************************)
@@ -14,7 +15,7 @@ EXTENDS Integers, Sequences, FiniteSets, TLC
 Range(s) == {s[i] : i \in DOMAIN s}
 
 \* relations compared row for row (others are reported in the evidence only)
-Compared == {"app", "app.long", "mixin", "ep", "event", "ep.rest", "stmt", "type", "table", "field", "enum", "alias",
+Compared == {"app", "app.long", "mixin", "ep", "event", "ep.rest", "stmt", "type", "table", "field", "field.constraint", "enum", "alias",
              "app.tag", "type.tag", "field.tag", "ep.tag", "app.anno", "type.anno", "field.anno", "ep.anno"}
 
 \* the payload of a return statement is parsed by relmod into status and type; the census states
